@@ -60,6 +60,12 @@ def norm(x: Any) -> Any:
         return ("seq", tuple(norm(e) for e in x))
     if isinstance(x, bool):
         return ("bool", x)
+    # look-alikes (dict views, Mapping / Set classes that are not dict / set subclasses): what they SAY
+    import collections.abc as _abc
+    if isinstance(x, _abc.Mapping):
+        return ("map", frozenset((norm(k), norm(x[k])) for k in list(x.keys())))
+    if isinstance(x, _abc.Set):
+        return ("set", frozenset(norm(e) for e in x))
     return x
 
 
